@@ -218,8 +218,14 @@ def check_property(prop, tier):
                 obligations[oid] = "undecided"
             per_ob.append({"id": oid, "kind": "kani-harness", "backend": "kani/cbmc", "ms": kr.get("ms"), "status": obligations[oid], "bounded": kr.get("bounded", False), "bound": kr.get("bound", "")})
 
-    # replay files + VIOLATION lines
+    # replay files + VIOLATION lines (stale files of earlier runs of this property are removed first)
     os.makedirs(REPLAYS, exist_ok=True)
+    for fn in os.listdir(REPLAYS):
+        if fn.startswith(prop + "_") and fn.endswith(".json"):
+            try:
+                os.remove(os.path.join(REPLAYS, fn))
+            except OSError:
+                pass
     lines = []
     seen_v = set()
 
